@@ -89,6 +89,75 @@ def roundtrip(quads, fmt, horizon=10.0):
     return None
 
 
+PRE_KINDS = ["dataset", "view-of-g1", "graph-named-g1", "graph-named-gb"]
+
+
+def roundtrip_after(pre_kind, pre_quads, quads, fmt):
+    """One earlier write in the same process - another dataset, a named graph of it written on its own, or a separate plain Graph that carries the
+    same name - and then the round trip of `quads`: what a serializer remembers from an earlier document must not reach a later one."""
+    from rdflib import Graph
+    from ..rt import mk
+    pre = dataset_from(pre_quads)
+    kw = {"operation": "add"} if fmt == "patch" else {}
+    try:
+        with seams.watchdog(10.0):
+            if pre_kind == "dataset":
+                pre.serialize(format=fmt, **kw)
+            elif pre_kind == "view-of-g1":
+                pre.graph(mk(I("g1"))).serialize(format=fmt, **kw)
+            else:
+                name = I("g1") if pre_kind == "graph-named-g1" else B("gb")
+                g = Graph(identifier=mk(name))
+                for q in pre_quads:
+                    g.add(tuple(mk(x) for x in q[:3]))
+                g.serialize(format=fmt, **kw)
+    except Exception:  # noqa: BLE001
+        pass  # (whether a plain Graph can be written in a quad format is not the point here)
+    return roundtrip(quads, fmt)
+
+
+def _hist_batch(arg):
+    items, formats = arg
+    viols = []
+    n = 0
+    for pre_kind, pre_quads, quads in items:
+        for fmt in formats:
+            n += 1
+            v = roundtrip_after(pre_kind, pre_quads, quads, fmt)
+            if v:
+                viols.append({"sig": "%s|after-earlier-write:%s|%s" % (fmt, pre_kind, v[0]), "detail": v[1],
+                              "case": {"earlier_write": [pre_kind, [[list(x) if x is not None else None for x in q] for q in pre_quads]],
+                                       "quads": [[list(x) if x is not None else None for x in q] for q in quads], "format": fmt}})
+    return viols, n
+
+
+def fresh_process_histories(items, jobs):
+    """The same histories, each in an interpreter of its own: what an earlier write leaves behind in the process (class attributes, module-level
+    tables) depends on which write came FIRST, and a long-lived worker has long since made its first write of every kind."""
+    import json
+    import os
+    import subprocess
+    import sys
+    from concurrent.futures import ThreadPoolExecutor
+    import rdflib
+    repo = os.path.dirname(os.path.dirname(os.path.abspath(rdflib.__file__)))
+    verif = os.path.dirname(os.path.dirname(os.path.dirname(os.path.abspath(__file__))))
+    code = ("import sys, json, warnings; warnings.simplefilter('ignore'); sys.path[:0] = [%r, %r]; from mc.props import C06; "
+            "k, pre, quads, fmt = json.loads(sys.argv[1]); v = C06.roundtrip_after(k, C06._q(pre), C06._q(quads), fmt); print('RESULT ' + json.dumps(v, default=str))" % (verif, repo))
+
+    def one(item):
+        k, pre, quads, fmt = item
+        arg = json.dumps([k, [[list(x) if x is not None else None for x in q] for q in pre], [[list(x) if x is not None else None for x in q] for q in quads], fmt])
+        r = subprocess.run([sys.executable, "-c", code, arg], capture_output=True, text=True, timeout=120, env=dict(os.environ))
+        for line in r.stdout.splitlines():
+            if line.startswith("RESULT "):
+                return item, json.loads(line[7:]), None
+        return item, None, (r.stderr or r.stdout)[-400:]
+
+    with ThreadPoolExecutor(max_workers=jobs) as ex:
+        return list(ex.map(one, items))
+
+
 def _rt_batch(arg):
     datasets, formats = arg
     viols = []
@@ -204,6 +273,29 @@ def run(ctx):
         ctx.add("evaluations", n)
         ctx.add("distinct_nontrivial", nt)
     ctx.cov["datasets_with_graph_name_as_term"] = len(nat)
+    # one earlier write before the round trip, over every ordered pair of the 2-triple (thorough: 3-triple) sub-universe
+    small = list(universe(3 if thorough else 2))
+    items = [(k, a, b) for k in PRE_KINDS for a in small for b in small if b and (a or k == "dataset")]
+    res = R.pmap(_hist_batch, [(sh, FORMATS) for sh in R.shards(items, ctx.jobs * 8)], ctx.jobs)
+    for viols, n in res:
+        ctx.extend(viols)
+        ctx.add("evaluations", n)
+        ctx.add("distinct_nontrivial", n)
+    ctx.cov["write_histories"] = len(items) * len(FORMATS)
+    t0, t1 = TRIPLES[0], TRIPLES[1]
+    pres = [[t0 + (I("g1"),)], [t0 + (I("g1"),), t1 + (B("gb"),)], [t0 + (None,), t1 + (I("g1"),)]]
+    mains = [[t0 + (I("g1"),), t1 + (None,)], [t0 + (I("g1"),), t0 + (B("gb"),)], [t1 + (B("gb"),), t0 + (None,)]]
+    fresh = [(k, a, b, fmt) for fmt in FORMATS for k in PRE_KINDS for a in pres for b in mains]
+    for item, v, err in fresh_process_histories(fresh, ctx.jobs):
+        ctx.add("evaluations", 1)
+        ctx.add("distinct_nontrivial", 1)
+        k, a, b, fmt = item
+        case = {"earlier_write": [k, [[list(x) if x is not None else None for x in q] for q in a]], "quads": [[list(x) if x is not None else None for x in q] for q in b], "format": fmt}
+        if err is not None:
+            ctx.violation("%s|after-earlier-write:%s|fresh-process-run-failed" % (fmt, k), case, {"stderr": err})
+        elif v:
+            ctx.violation("%s|after-earlier-write:%s|%s" % (fmt, k, v[0]), case, v[1])
+    ctx.cov["write_histories_in_fresh_processes"] = len(fresh)
     # the term table of C03 through the quad syntaxes (TriG / TriX / N-Quads / RDF Patch / HexTuples are reachable only with datasets)
     from . import C03
     terms = C03.term_table(3 if thorough else 2, thorough)
@@ -235,6 +327,10 @@ def _q(q):
 
 
 def replay(ctx, case):
+    if "earlier_write" in case:
+        kind, pre = case["earlier_write"]
+        v = roundtrip_after(kind, _q(pre), _q(case["quads"]), case["format"])
+        return [{"sig": "%s|after-earlier-write:%s|%s" % (case["format"], kind, v[0]), "case": case, "detail": v[1]}] if v else []
     if "quads" in case and case.get("term_class"):
         quads = _q(case["quads"])
         v = roundtrip(quads, case["format"], horizon=60.0)
